@@ -15,7 +15,7 @@ from . import ind
 
 PID = 'C14'
 THEOREMS = ['C14_sequential_is_whole_series', 'C14_single_is_last_of_sequential', 'C14_single_on_long_input_is_sequential_on_trailing_window',
-            'C14_state_machines_one_entry_per_input', 'C14_core_indicators_one_entry_per_candle']
+            'C14_state_machines_one_entry_per_input', 'C14_core_indicators_one_entry_per_candle', 'C14_mfi_keltner_one_entry_per_candle']
 WARMUP = 240
 
 
@@ -71,6 +71,11 @@ def monitor(tier, seed, progress):
         # (a tie inside the last window, a swing high one to three candles from the end), so the end of the input is moved candle by candle
         groups = [[60, 61, 62, 63], [300, 301]] if tier == 'quick' else [[30, 31, 32], [60, 61, 62, 63], [WARMUP - 1, WARMUP, WARMUP + 1, WARMUP + 2], [300, 301, 302], [500, 501]]
         series = []
+        # inputs shorter than most periods (a strategy's first candles): the one-entry-per-candle clause only - what the warm-up filler is (NaN, 0.0, the
+        # price itself) differs between indicators and is not part of the property; mfi returned 2 * period - n entries here (finding F31, repaired)
+        short = [3, 8] if tier == 'quick' else [2, 3, 5, 8, 13]
+        cs_short, style_s = ind.gen_series(rng, max(short), 'walk')
+        series += [(n_, cs_short[:n_], style_s) for n_ in short]
         for g in groups:
             cs_all, style_g = ind.gen_series(rng, max(g), rng.choice(['walk', 'spiky', 'trend']))
             series += [(n_, cs_all[:n_], style_g) for n_ in g]
@@ -105,6 +110,8 @@ def monitor(tier, seed, progress):
                         viol.setdefault(f'field_is_not_a_numeric_series:{name}', dict(base, got=repr(v)[:120])); continue
                     if len(a) != n:
                         viol.setdefault(f'entries_differ_from_candles:{name}', dict(base, entries=len(a))); continue
+                    if n < 30:
+                        continue
                     ref = a if n <= WARMUP else (ind.numeric_array(tail.get(fld)) if tail is not None else None)
                     if ref is None or len(ref) == 0:
                         continue
